@@ -62,6 +62,9 @@ def cases(seed, tier):
         if source == 'file':
             c['file_extra'] = rng.choice([[], [''], ['   '], ['', '\t'], []])
             c['threads'] = rng.choice([1, 2])
+            if rng.random() < 0.5:
+                # a second target in the same file, with or without a port of its own, before or after
+                c['other'] = {'host': 'other.example', 'ip': '203.0.113.9', 'port': rng.choice([None, None, 2022, 22, 8022]), 'first': rng.random() < 0.5}
         yield c
 
 
@@ -118,9 +121,18 @@ def run_case(case, ctx):
     if case['popt'] is not None:
         argv += ['-p', str(case['popt'])]
     plan = {'seed': case['pseed'], 'world': {'hosts': hosts, 'servers': servers}, 'net': {'rtt_us': 300}, 'knobs': {'max_conns': 400}}
+    other = case.get('other') if valid else None
+    if other:
+        oport = other['port'] if other['port'] is not None else (case['popt'] if case['popt'] is not None else 22)
+        hosts[other['host']] = {'answers': [[4, other['ip']]]}
+        servers.append({'ip': other['ip'], 'port': oport, 'profile': prof, 'name': 'other'})
     if case['source'] == 'file':
         lines = list(case.get('file_extra', []))
-        body = '\n'.join(lines[:1] + [case['spelling']] + lines[1:]) + '\n'
+        mine = [case['spelling']]
+        if other:
+            ospell = other['host'] if other['port'] is None else '%s:%d' % (other['host'], other['port'])
+            mine = [ospell, case['spelling']] if other['first'] else [case['spelling'], ospell]
+        body = '\n'.join(lines[:1] + mine + lines[1:]) + '\n'
         plan['dir'] = ctx.scratch()
         plan['files'] = {'targets.txt': body}
         argv += ['-T', '{DIR}/targets.txt', '--threads', str(case.get('threads', 1))]
@@ -145,6 +157,15 @@ def run_case(case, ctx):
         keys.append(h('invalid', src, case['popt'] is not None, case['port']))
         return {'violations': out, 'keys': keys}
     # ---- resolver queries: only for the named host, with the family the option asks for
+    if other:
+        for (fam, ip, cport, outcome) in rec['connects']:
+            if ip == other['ip'] and cport != oport:
+                out.append(viol('C18 a target of the file is contacted on another port than its own line / the -p default names', 'line %r -> port %r, contacted %s:%s\n%s' % (
+                    ospell, oport, ip, cport, ctx_txt)))
+                break
+        if not any(ip == other['ip'] for (_f, ip, _p, _o) in rec['connects']):
+            out.append(viol('C18 a target listed in the file was never contacted', '%r\n%s' % (ospell, ctx_txt)))
+        rec = dict(rec, resolver=[q for q in rec['resolver'] if q[0] != other['host']], connects=[c for c in rec['connects'] if c[1] != other['ip']])
     for (qh, qp, qf) in rec['resolver']:
         if qh != host and qh not in addrs:
             out.append(viol('C18 resolver asked for a host that was not named (%s, -p %s)' % (src, 'given' if case['popt'] is not None else 'absent'), 'asked %r\n%s' % (qh, ctx_txt)))
@@ -184,15 +205,22 @@ def run_case(case, ctx):
         if case['mode'] == 'json':
             doc, err = report.parse_json(rec['stdout'])
             if doc is not None:
-                d = doc[0] if isinstance(doc, list) and doc else doc
+                if isinstance(doc, list):
+                    cand = [x for x in doc if isinstance(x, dict) and not (other and str(x.get('target', '')).startswith(other['host']))]
+                    d = cand[0] if cand else None
+                else:
+                    d = doc
                 if isinstance(d, dict) and 'target' in d and d['target'] != lab_hostport:
                     out.append(viol('C18 JSON target label differs from the named target', 'label %r want %r\n%s' % (d['target'], lab_hostport, ctx_txt)))
         elif case['mode'] == 'policy':
-            m = re.search(r'(?m)^Host:\s+(\S+)', report.strip_ansi(rec['stdout']))
+            hosts_shown = re.findall(r'(?m)^Host:\s+(\S+)', report.strip_ansi(rec['stdout']))
+            if other:
+                hosts_shown = [x for x in hosts_shown if not x.startswith(other['host'])]
+            m = re.match(r'(\S+)', hosts_shown[0]) if hosts_shown else None
             want = host if port == 22 else ('[%s]:%d' % (host, port) if ':' in host else '%s:%d' % (host, port))
             if m and m.group(1) != want:
                 out.append(viol('C18 policy report label differs from the named target', 'label %r want %r\n%s' % (m.group(1), want, ctx_txt)))
-        elif src == 'file':
+        elif src == 'file' and not other:
             m = re.search(r'(?m)^\(gen\) target: (\S+)', report.strip_ansi(rec['stdout']))
             want = host if port == 22 else ('[%s]:%d' % (host, port) if ':' in host else '%s:%d' % (host, port))
             if m and m.group(1) != want:
